@@ -63,22 +63,61 @@ def parseWriteRes (j : Json) : R (WriteRes Nat) := do
   | [.str "done"] => return .done
   | _ => throw "bad write result"
 
-/-- one operation of a history → the call of the funnel it produces (if any), and whether the wrapper holds
-the access lock around it -/
-def parseOp (o : Oracle Nat Nat) (j : Json) : R (Option (Ev Nat Nat) × Bool) := do
+def parseReadRes (l : List Json) : R (ReadRes Nat Nat) := do
+  match l with
+  | [.str "ret", v] => return .returns (← v.getNat?)
+  | [.str "raise", e] => return .raises (← e.getNat?)
+  | [.str "done"] => return .done
+  | _ => throw "bad read result"
+
+/-- what one operation of a history does: the calls of the funnel made by the body of the driver method (assignments),
+the call the wrapper / the operation itself makes (if any), and the program of the thread in the small-step system -/
+structure Call where
+  inner : List (Ev Nat Nat)
+  final : Option (Ev Nat Nat)
+  prog : Pid → TsArg → List (Op Nat Nat)
+
+def parseBase (o : Oracle Nat Nat) (inner : List Nat) (j : Json) : R Call := do
   match (← arr j) with
-  | [.str "read", .str "ret", v] => return (readEv o (.returns (← v.getNat?)), true)
-  | [.str "read", .str "raise", e] => return (readEv o (.raises (← e.getNat?)), true)
-  | [.str "read", .str "done"] => return (readEv o (ReadRes.done : ReadRes Nat Nat), true)
-  | [.str "write", raw, ck, w] => return (writeEv o (← raw.getNat?) (← ck.getBool?) (← parseWriteRes w), true)
-  | [.str "assign", v] => return (some (assignEv (← v.getNat?)), false)
+  | .str "read" :: rest =>
+    let res ← parseReadRes rest
+    return ⟨innerEvs inner, readEv o res, fun p _ => guarded p (readEvs o inner res)⟩
+  | [.str "write", raw, ck, w] =>
+    let raw ← raw.getNat?; let ck ← ck.getBool?; let w ← parseWriteRes w
+    return ⟨writeInner o raw ck inner w, writeEv o raw ck w, fun p _ => guarded p (writeEvs o raw ck inner w)⟩
+  | [.str "assign", v] =>
+    let ev : Ev Nat Nat := assignEv (← v.getNat?)
+    return ⟨[], some ev, fun p ts => [.announce p ev ts]⟩
   -- assignment to a parameter that is not exported: its funnel runs (`unexported_silent`), nothing is sent, the
   -- observed parameter is untouched
-  | [.str "hidden", _] => return (none, false)
+  | [.str "hidden", _] => return ⟨[], none, fun _ _ => []⟩
   | [.str "announce", v, e, vd] =>
-    if e.isNull then return (some (.value (← v.getNat?) (← vd.getBool?)), false)
-    else return (some (.error (← e.getNat?)), false)
+    let ev : Ev Nat Nat ← if e.isNull then pure (Ev.value (← v.getNat?) (← vd.getBool?)) else pure (Ev.error (← e.getNat?))
+    return ⟨[], some ev, fun p ts => [.announce p ev ts]⟩
+  -- requests that come through the dispatcher: `k` = the connection that sent it
+  | [.str "change", k, ro, imp, ck, w] =>
+    let k ← k.getNat?; let ck ← ck.getBool?; let w ← parseWriteRes w
+    let rq : ChangeReq Nat := ⟨← ro.getBool?, ← optNat imp⟩
+    let arg := changeArg o rq
+    return ⟨(arg.map (fun v => writeInner o v ck inner w)).getD [], arg.bind (fun v => writeEv o v ck w),
+            fun p _ => changeOps o k p rq ck inner w⟩
+  | [.str "do", k] =>
+    let k ← k.getNat?
+    return ⟨innerEvs inner, none, fun p _ => doOps k p inner⟩
+  | .str "rread" :: k :: rest =>
+    let k ← k.getNat?
+    let res ← parseReadRes rest
+    return ⟨innerEvs inner, readEv o res, fun p _ => readReqOps o k p inner res⟩
   | _ => throw s!"bad op {j.compress}"
+
+/-- `["inner", [v, …], op]`: the body of the driver method of `op` assigns the values `v, …` to the parameter first -/
+def parseCall (o : Oracle Nat Nat) (j : Json) : R Call := do
+  match (← arr j) with
+  | [.str "inner", vs, base] => parseBase o (← (← arr vs).mapM (·.getNat?)) base
+  | _ => parseBase o [] j
+
+/-- the observation points of one operation: after every assignment of the driver body, and at the end -/
+def Call.points (c : Call) : List (Option (Ev Nat Nat)) := c.inner.map some ++ [c.final]
 
 def outJson (out : Out Nat Nat) : Json :=
   Json.mkObj [("msgs", jarr ((out.msg.toList).map (fun m => jarr [veJson m.ve, jint m.t]))),
@@ -87,22 +126,16 @@ def outJson (out : Out Nat Nat) : Json :=
 def parseObs (j : Json) : R (Obs S) := do
   return ⟨← (← fldArr j "msgs").mapM parseVe, ← parseVe (← fld j "cache")⟩
 
-/-- sequential run, one output per operation -/
-def seqRun (o : Oracle Nat Nat) : Entry Nat Nat → List (Int × Option (Ev Nat Nat)) → List (Out Nat Nat)
-  | _, [] => []
-  | e, (now, some ev) :: rest => let out := announce o e now ev; out :: seqRun o out.entry rest
-  | e, (_, none) :: rest => ⟨e, none⟩ :: seqRun o e rest
-
 /-! ### activation inside sequential histories -/
 
 inductive SeqOp where
-  | call (ev : Option (Ev Nat Nat))
+  | call (c : Call)
   | activate (k : Nat) (ps : List Nat)
 
 def parseSeqOp (o : Oracle Nat Nat) (j : Json) : R SeqOp := do
   match (← arr j) with
   | [.str "activate", k, ps] => return .activate (← k.getNat?) (← (← arr ps).mapM (·.getNat?))
-  | _ => return .call (← parseOp o j).1
+  | _ => return .call (← parseCall o j)
 
 def pmsgJson (m : Nat × Msg Nat Nat) : Json := jarr [jnat m.1, veJson m.2.ve, jint m.2.t]
 
@@ -127,15 +160,24 @@ def cidsOf (j : Json) : R (List Nat) :=
   | .error _ => pure []
   | .ok _ => fldNats j "cids"
 
-/-- sequential run on one parameter (number 0) with activations, one output per operation -/
+/-- the observation points of one operation on parameter 0: one output per point -/
+def pointOuts (o : Oracle Nat Nat) (cids : List Nat) (act : Nat → Nat → Bool) (now : Int) :
+    Entry Nat Nat → List (Option (Ev Nat Nat)) → Entry Nat Nat × List Json
+  | e, [] => (e, [])
+  | e, some ev :: rest =>
+    let out := announce o e now ev
+    let r := pointOuts o cids act now out.entry rest
+    (r.1, (outJson out).setObjVal! "recv" (recvJson cids act (out.msg.toList.map (fun m => (0, m))) none []) :: r.2)
+  | e, none :: rest =>
+    let r := pointOuts o cids act now e rest
+    (r.1, (outJson ⟨e, none⟩).setObjVal! "recv" (recvJson cids act [] none []) :: r.2)
+
+/-- sequential run on one parameter (number 0) with activations, one output per observation point -/
 def seqRunA (o : Oracle Nat Nat) (cids : List Nat) : (Nat → Nat → Bool) → Entry Nat Nat → List (Int × SeqOp) → List Json
   | _, _, [] => []
-  | act, e, (now, .call (some ev)) :: rest =>
-    let out := announce o e now ev
-    (outJson out).setObjVal! "recv" (recvJson cids act (out.msg.toList.map (fun m => (0, m))) none []) ::
-      seqRunA o cids act out.entry rest
-  | act, e, (_, .call none) :: rest =>
-    (outJson ⟨e, none⟩).setObjVal! "recv" (recvJson cids act [] none []) :: seqRunA o cids act e rest
+  | act, e, (now, .call c) :: rest =>
+    let r := pointOuts o cids act now e c.points
+    r.2 ++ seqRunA o cids act r.1 rest
   | act, e, (_, .activate k ps) :: rest =>
     (outJson ⟨e, none⟩).setObjVal! "recv" (recvJson cids act [] (some k) (snapshot (fun _ => e) ps)) ::
       seqRunA o cids (subscribe act k ps) e rest
@@ -183,16 +225,26 @@ def mOutJson (n : Nat) (es : Nat → Entry Nat Nat) (msgs : List (Nat × Msg Nat
               ("caches", jarr ((List.range n).map (fun p => veJson (es p).ve))),
               ("ts", jarr ((List.range n).map (fun p => jint (es p).timestamp)))]
 
+def pointOutsM (o : Oracle Nat Nat) (caught : CbOutcome → Bool) (fs : List Follower) (n : Nat) (cids : List Nat)
+    (act : Nat → Nat → Bool) (clock : Int) (ts : TsArg) :
+    (Nat → Entry Nat Nat) → List (Option (Ev Nat Nat)) → (Nat → Entry Nat Nat) × List Json
+  | es, [] => (es, [])
+  | es, some ev :: rest =>
+    let r := resolve o ev
+    -- the time stamp argument belongs to the operation itself (the last point), the assignments of a body have none
+    let out := announceM o caught es 0 (effTimestamp (if rest.isEmpty then ts else .absent) clock) r (fs.map (cbOf o clock r))
+    let more := pointOutsM o caught fs n cids act clock ts out.es rest
+    (more.1, (mOutJson n out.es out.msgs).setObjVal! "recv" (recvJson cids act out.msgs none []) :: more.2)
+  | es, none :: rest =>
+    let more := pointOutsM o caught fs n cids act clock ts es rest
+    (more.1, (mOutJson n es []).setObjVal! "recv" (recvJson cids act [] none []) :: more.2)
+
 def seqmRun (o : Oracle Nat Nat) (caught : CbOutcome → Bool) (fs : List Follower) (n : Nat) (cids : List Nat) :
     (Nat → Nat → Bool) → (Nat → Entry Nat Nat) → List (Int × TsArg × SeqOp) → List Json
   | _, _, [] => []
-  | act, es, (clock, ts, .call (some ev)) :: rest =>
-    let r := resolve o ev
-    let out := announceM o caught es 0 (effTimestamp ts clock) r (fs.map (cbOf o clock r))
-    (mOutJson n out.es out.msgs).setObjVal! "recv" (recvJson cids act out.msgs none []) ::
-      seqmRun o caught fs n cids act out.es rest
-  | act, es, (_, _, .call none) :: rest =>
-    (mOutJson n es []).setObjVal! "recv" (recvJson cids act [] none []) :: seqmRun o caught fs n cids act es rest
+  | act, es, (clock, ts, .call c) :: rest =>
+    let r := pointOutsM o caught fs n cids act clock ts es c.points
+    r.2 ++ seqmRun o caught fs n cids act r.1 rest
   | act, es, (_, _, .activate k ps) :: rest =>
     (mOutJson n es []).setObjVal! "recv" (recvJson cids act [] (some k) (snapshot es ps)) ::
       seqmRun o caught fs n cids (subscribe act k ps) es rest
@@ -212,12 +264,6 @@ def parseLabel (j : Json) : R (Tid × Option Label) := do
   | [t, .str "relD"] => return (← t.getNat?, some .relD)
   | [t, .str "send", c] => return (← t.getNat?, some (.send (← c.getNat?)))
   | _ => throw s!"bad label {j.compress}"
-
-def expand (p : Pid) (ts : TsArg) : Option (Ev Nat Nat) × Bool → List (Op Nat Nat)
-  | (some ev, true) => [.accAcquire, .announce p ev .absent, .accRelease]
-  | (none, true) => [.accAcquire, .accRelease]
-  | (some ev, false) => [.announce p ev ts]
-  | (none, false) => []
 
 /-- perform the visible step thread `t` is waiting at (if it is waiting at one), then its invisible steps -/
 def advance (c : Cfg Nat Nat) (s : Sys Nat Nat) (t : Tid) (pending : Bool) : Except String (Sys Nat Nat) :=
@@ -293,7 +339,7 @@ def handle (j : Json) : R Json := do
         let ts ← match x.getObjVal? "ts" with
           | .ok t => parseTs t
           | .error _ => pure TsArg.absent
-        return expand p ts (← parseOp o (← fld x "op")))
+        return (← parseCall o (← fld x "op")).prog p ts)
       return ops.flatten)
     let labels ← (← fldArr j "labels").mapM parseLabel
     let dflt : Entry Nat Nat := ⟨0, none, 0, 0⟩
